@@ -246,6 +246,10 @@ def run(repo, res, tier):
     res.rule("T4-PROTOCOL", "every class translate_rotate is invoked on defines it", 10)
     res.rule("T5-ASSIGNABLE", "attributes assigned by State.translate_rotate are plain (assignable) in every State subclass", 20)
     res.rule("T6-WRAP", "`orientation + angle` is normalised or AngleInterval arithmetic", 3)
+    res.rule("T8-ANGLES", "the angle test of translate_rotate accepts exactly [-2pi, 2pi], ends included (evaluated)", 6)
+    from . import c05ev as _c05ev
+
+    _c05ev.angle_domain_rule(repo, res)
     res.rule("T7-DERIVED", "spatial data derived from what translate_rotate moves (occupancy sets, initial occupancy, polygons, vertices, spatial index) is refreshed by it", 8)
     from . import c11
 
